@@ -4,7 +4,7 @@
 Require Import List ZArith Arith.
 From Dasp Require Import Base.Res Base.ListX Ring.Bounded Ring.BoundedSpec Ring.BoundedProofs
   Ring.Fixed Ring.FixedSpec Ring.FixedProofs Ring.RingExamples Ring.IndexArith
-  Ring.RingPrim Ring.RingGenGlue Ring.RingGenEquiv.
+  Ring.RingPrim Ring.RingGenGlue Ring.RingGenEquiv Ring.RingGenExamples.
 From Dasp Require Ring.RingRun Ring.RingRunNorm.
 From DaspGen Require Import RingGen.
 Import ListNotations.
